@@ -186,16 +186,20 @@ def _do(col, case, nontrivial=True):
     col.count("evaluations")
     col.outcome(case["mode"] + ":" + label)
     if nontrivial and (label.startswith("accepted") or label in ("constructed", "wellformed-rejected")):
-        col.nontrivial((case["spec"], case["rdclass"], case["mode"], case.get("origin", 0), case["buf"], case["off"]))
+        if case["mode"] == "oct":
+            # distinct by construction (each octet string is enumerated once per type): counted, not hashed
+            col.count("nontrivial_octet_strings_accepted")
+        else:
+            col.nontrivial((case["spec"], case["rdclass"], case["mode"], case.get("origin", 0), case["buf"], case["off"]))
     for s, w in probs:
         col.violation("C02/" + s, w, case)
     return label
 
 
 # ------------------------------------------------------------------ enumeration
-def capped_values(spec, tier, k, cap, cap1=None):
-    """k-deviation; dimensions deviating together (kk>=2) use only their first `cap` alternatives
-    (single deviations use every alternative, or the first `cap1`)."""
+def capped_values(spec, tier, k, cap, cap1=None, cap3=3):
+    """k-deviation; dimensions deviating together use only their first `cap` (pairs) / `cap3`
+    (triples and above) alternatives; single deviations use every alternative, or the first `cap1`."""
     dims = spec.dims(tier)
     base = [d[0] for _, d in dims]
     n = len(dims)
@@ -210,8 +214,8 @@ def capped_values(spec, tier, k, cap, cap1=None):
     yield build(base)
     for kk in range(1, min(k, n) + 1):
         for which in itertools.combinations(range(n), kk):
-            doms = [(dims[w][1][1:] if cap1 is None else dims[w][1][1:1 + cap1]) if kk == 1 else dims[w][1][1:1 + cap]
-                    for w in which]
+            doms = [(dims[w][1][1:] if cap1 is None else dims[w][1][1:1 + cap1]) if kk == 1 else
+                    dims[w][1][1:1 + (cap if kk == 2 else cap3)] for w in which]
             for alts in itertools.product(*doms):
                 c = list(base)
                 for w, a in zip(which, alts):
@@ -330,9 +334,9 @@ def task_faults(task, col):
 
 def run(ctx):
     q = ctx.quick
-    k = 2
+    k = ctx.pick(2, 3)
     cap = ctx.pick(5, 12)
-    n8 = ctx.pick(4, 6)
+    n8 = ctx.pick(5, 6)
     full2 = not q
     fault_cap = ctx.pick(6, 40)
     fault_maxlen = ctx.pick(72, 400)
@@ -344,7 +348,9 @@ def run(ctx):
         "arbitrary octets: all strings of length<=2 (quick: every pair with one octet in a 40-value alphabet), all "
         "strings of length<=n over an 8-octet alphabet, every truncation / single-octet substitution (10 values) / "
         "1-2 trailing octets of valid encodings.  A case is distinct by (type,class,mode,origin,octets); non-trivial "
-        "= the library accepted the octets (or rejected reference-well-formed ones).")
+        "= the library accepted the octets (or rejected reference-well-formed ones); accepted arbitrary-octet strings "
+        "are distinct by construction and reported as the counter nontrivial_octet_strings_accepted instead of "
+        "being hashed into distinct_nontrivial.")
     ctx.assume("reference decoder verdict 'hard' only for structural errors (field past RDLENGTH, leftover octets in a "
                "fixed layout, bad label type/pointer); value-level restrictions are 'soft' (either verdict allowed)")
     ctx.assume("names below the origin are spelled with the origin's exact case (RFC 4343: relativisation is case-insensitive)")
@@ -355,7 +361,7 @@ def run(ctx):
     ctx.extra["types_not_covered"] = cov["not_covered"]
     ctx.extra["generic_unknown_cases"] = cov["generic_unknown"]
     ctx.extra["edns_option_codes"] = sorted({c for v in R.EdnsOptions().domain(tier) for c, _ in v})
-    ctx.extra["bounds"] = {"k": k, "pair_cap": cap, "alphabet8_max_len": n8, "all_2_octet_strings": full2,
+    ctx.extra["bounds"] = {"k": k, "pair_cap": cap, "triple_cap": 3, "alphabet8_max_len": n8, "all_2_octet_strings": full2,
                            "fault_bases_per_dim": fault_cap, "fault_base_max_len": fault_maxlen, "origin": "example."}
     ctx.extra["domain_sizes"] = {s.name: [len(d) for _, d in s.dims(tier)] for s in R.SPECS}
     tasks = []
